@@ -13,5 +13,5 @@ CONSTANTS
 INVARIANTS
   OneHolderPerAddress KeyedByAddress OneLeasePerClient DynamicInsidePool
   ReservedClientGetsReservation OfferWhenFree DiskEqualsMemoryEachOnce
-  RestartRestoresSameTable HostsUnique RemBounded NoReuseBeforeAnnouncedExpiry BoundedStatics
+  RestartRestoresSameTable HostsUnique RemBounded NoReuseBeforeAnnouncedExpiry RemoveKeepsHeldDynamic BoundedStatics
   SameOutcomes IndIndInv IndSafety SameInvs
